@@ -16,6 +16,7 @@ func c18Gen(rt *rapid.T) e4Case {
 	o := e4GenOpts{MaxSteps: 6, QoSWeights: []int{0, 3, 4}, SubWeight: 5, MaxFaults: 0, Outages: false, PreConnect: true}
 	c := e4Case{Cfg: e4GenConfig(rt)}
 	c.Cfg.RespTimeoutMs = rapid.SampledFrom([]int{5, 10, 20}).Draw(rt, "respTimeoutMs")
+	c.Cfg.RepeatPubrec = false // (a repeated PUBREC can stand in for the one this case drops: the drop would then be no silence)
 	c.Steps = e4GenSteps(rt, o)
 	ackTypes := []int{rtPubAck, rtPubRec, rtPubComp, rtSubAck, rtUnsubAck}
 	n := rapid.IntRange(1, 3).Draw(rt, "nDrops")
